@@ -292,7 +292,22 @@ impl<'t> Gen<'t> {
         ];
         match self.t.weighted(&w) {
             0 => {
-                if self.t.chance(1, 14) {
+                if self.t.chance(1, 18) {
+                    // a string with a line break in it, and a long run of
+                    // text after the last break (line-buffered sinks treat
+                    // the two parts differently)
+                    let base = [16usize, 1024, 1024, 8192][self.t.draw(4) as usize];
+                    let tail_len = base - 1 + self.t.draw(3) as usize;
+                    let mut text = self.lit();
+                    text.push('\n');
+                    if self.t.chance(1, 2) {
+                        text.push_str("second line\n");
+                    }
+                    for k in 0..tail_len {
+                        text.push((b'a' + (k % 23) as u8) as char);
+                    }
+                    ops.push(Op::SayLit(text))
+                } else if self.t.chance(1, 14) {
                     // a text of an exact byte length around a power of two
                     // (somebody's fixed-size buffer)
                     let base = [64usize, 128, 256, 512, 1024, 4096, 8192][self.t.draw(7) as usize];
@@ -347,7 +362,7 @@ impl<'t> Gen<'t> {
                 let d = self.dest(s);
                 ops.push(Op::AssignLit(d, self.lit()))
             }
-            7 => ops.push(Op::Filler(self.t.draw(11))),
+            7 => ops.push(Op::Filler(self.t.draw(12))),
             8 => {
                 let cond = self.cond(s);
                 let mut inner = s.clone();
